@@ -80,6 +80,9 @@ pub enum DlOp {
     Pause(u32),
     /// Drop both halves of the downlink.
     Detach,
+    /// Drop only the half the downlink receives on; the half it sends on stays open (nothing tells the socket task
+    /// about it except the failure of its next write to the downlink).
+    DropReader,
 }
 
 #[derive(Debug, Clone, Serialize, Deserialize, PartialEq, Eq)]
@@ -373,7 +376,7 @@ pub fn generate(seed: u64) -> SockScenario {
                     d.ops.insert(0, DlOp::Send { kind: Kind::Link, body: String::new() });
                 }
                 d.ops.push(DlOp::Pause(*dr.pick(&[40u32, 150, 400])));
-                d.ops.push(DlOp::Detach);
+                d.ops.push(if dr.chance(1, 2) { DlOp::DropReader } else { DlOp::Detach });
             }
         }
     }
